@@ -1084,6 +1084,29 @@ def search(ctx, model, why):
     names = list(dict.fromkeys(t["mathematical_functions"]))
     reductions = set(t["reduction_functions"])
     budget = 300 if why is None else 600
+    if why is not None:
+        # a structural obligation on the tables broke: try the documented reduction / creation behaviour directly
+        jnp, snp, BA = env.jnp, env.snp, env.BlockArray
+        x = BA([jnp.array([[1.0, 2.0], [3.0, 4.0]]), jnp.array([5.0, 6.0, 7.0])])
+        for name in t["reduction_functions"]:
+            raw, f = be.getpath(jnp, name), be.getpath(snp, name)
+            for kw in ({}, {"axis": 0}):
+                impl = impl_call(f, [x], kw)
+                try:
+                    want = raw(jnp.concatenate([jnp.ravel(b) for b in x.arrays])) if not kw else [raw(b, **kw) for b in x.arrays]
+                except Exception:  # noqa: BLE001
+                    continue
+                good = impl[0] == "ok" and (same(impl[1], want) if not kw else (isinstance(impl[1], BA) and all(same(w, impl[1].arrays[i]) for i, w in enumerate(want))))
+                if not good:
+                    return {"call": f"snp.{name}(x{', axis=0' if kw else ''})", "x": jsonable(x), "scico_result": show_impl(impl),
+                            "documented": "reduction of the concatenation of the ravelled blocks" if not kw else "per block", "expected": be.describe(want)}
+        for name in t["creation_routines"]:
+            raw, f = be.getpath(jnp, name), be.getpath(snp, name)
+            extra = [1.5] if name == "full" else []
+            impl = impl_call(f, [((2, 3), (4,))] + extra, {})
+            want = [raw(s, *extra) for s in ((2, 3), (4,))]
+            if not (impl[0] == "ok" and isinstance(impl[1], BA) and all(same(w, impl[1].arrays[i]) for i, w in enumerate(want))):
+                return {"call": f"snp.{name}(((2, 3), (4,)))", "scico_result": show_impl(impl), "expected": be.describe(want)}
     for it in range(budget):
         name = names[int(rng.integers(0, len(names)))]
         if name in SKIP_NAMES or name in reductions:
